@@ -51,6 +51,7 @@ func cmdExplore(args []string) {
 	params := fs.String("params", "", "k=v,k=v")
 	noinstr := fs.Bool("noinstr", false, "skip instrumentation")
 	solver := fs.String("solver", "z3", "z3|z3-new|cvc5")
+	keep := fs.Int("keep", 0, "number of path samples (events, decisions) to keep in the report")
 	fs.Parse(args)
 	rest := fs.Args()
 	if len(rest) < 2 {
@@ -84,7 +85,7 @@ func cmdExplore(args []string) {
 		fmt.Fprintf(os.Stderr, "no function %s in %s\n", fn, pkg)
 		os.Exit(2)
 	}
-	cfg := symx.Config{Workers: *workers, Trace: *trace, MaxPaths: *maxPaths, SampleModels: 2, Params: parseParams(*params), Solver: *solver}
+	cfg := symx.Config{Workers: *workers, Trace: *trace, MaxPaths: *maxPaths, SampleModels: 2, Params: parseParams(*params), Solver: *solver, KeepSamples: *keep}
 	sh := symx.NewShared(l.prog)
 	rep := symx.Explore(l.prog, sh, f, cfg)
 	rep.Funcs = trimFuncs(rep.Funcs)
